@@ -43,7 +43,11 @@ def generate(rng, tier, shard, nshards):
     for i in range(n):
         cls = rng.choice(PATCHY + ['PointPixelRegion', 'LinePixelRegion', 'TextPixelRegion'])
         reg = gen.pixel_region_spec(rng, cls=cls, size=gen.logu(rng, 0.5, 200), center=(rng.uniform(-100, 100), rng.uniform(-100, 100)), max_aspect=10.0,
-                                    include='absent')
+                                    include='absent', angle=(None if rng.random() < 0.8 else S.q(rng.choice([180.0, -180.0, 540.0, 90.0, 270.0, 360.0]), 'deg')))
+        if cls == 'PolygonPixelRegion' and rng.random() < 0.3:
+            n = rng.randint(3, 8)
+            reg = S.reg(cls, vertices=S.pix({'a': [rng.randint(-40, 40) for _ in range(n)], 'dt': 'int64', 'sh': [n]},
+                                            {'a': [rng.randint(-40, 40) for _ in range(n)], 'dt': 'int64', 'sh': [n]}))
         style = rng.choice(['none', 'mpl', 'ds9']) if cls not in ('PointPixelRegion', 'TextPixelRegion') else rng.choice(['none', 'ds9'])
         vis = {}
         if style == 'mpl':
@@ -73,7 +77,7 @@ def generate(rng, tier, shard, nshards):
                 kw = rng.choice([{'markersize': 13}, {'markeredgecolor': 'cyan'}, {'marker': 's'}, {'alpha': 0.25}])
             else:
                 kw = rng.choice([{'edgecolor': 'cyan'}, {'linewidth': 7.5}, {'fill': True, 'facecolor': 'yellow'}, {'alpha': 0.25}, {'linestyle': '-.'}])
-        yield {'lane': cls, 'region': reg, 'origin': rng.choice([[0, 0], [0, 0], [rng.uniform(-50, 50), rng.uniform(-50, 50)], [10, -3]]), 'kw': kw,
+        yield {'lane': cls, 'region': reg, 'origin': rng.choice([[0, 0], [0, 0], [rng.uniform(-50, 50), rng.uniform(-50, 50)], [10, -3], [0.5, 0.5], [-0.25, 7.75]]), 'kw': kw,
                'rs': rng.randrange(2 ** 31)}
 
 
